@@ -231,7 +231,7 @@ def nontrivial_c05(t):
 
 def cases_c04(rng, thorough):
     cases = []
-    variants = [None, 'bigint', 'tuple', 'str', 'float', 'altfloat', 'strenum', 'sentinel']
+    variants = [None, 'bigint', 'tuple', 'str', 'float', 'altfloat', 'strenum', 'sentinel', 'npint']
     kfs = [('modc', 2), ('modc', 3), ('id', 0), ('addc', -3)]     # addc -3: negative keys (-1, -2 collide as hashes)
     maxlen = 5 if thorough else 4
     for (f, c) in kfs:
@@ -305,7 +305,7 @@ def nontrivial_c04(t):
 def cases_c06(rng, thorough):
     cases = []
     preds = [('divc', 2), ('modc', 2), ('modc', 3), ('noneIf', 1), ('addc', -3)]   # noneIf: None as a predicate value
-    variants = [None, 'bigint', 'tuple', 'str', 'altfloat', 'strenum', 'sentinel']
+    variants = [None, 'bigint', 'tuple', 'str', 'altfloat', 'strenum', 'sentinel', 'npint']
     maxlen = 6 if thorough else 5
     for (f, c) in preds:
         for xs in seqs(range(4), maxlen):
